@@ -241,7 +241,9 @@ func genValue(rng *rand.Rand, v reflect.Value, depth int, nilOK bool) {
 			return
 		}
 		p := reflect.New(t.Elem())
-		if rng.Intn(4) != 0 { // else: pointer to the zero value
+		// else: pointer to the zero value -- but not for structs / arrays, whose zero value may contain
+		// nil pointers to structs (unsupported values, see above)
+		if rng.Intn(4) != 0 || !nilSameAsZero(t.Elem()) {
 			genValue(rng, p.Elem(), depth+1, false)
 		}
 		v.Set(p)
